@@ -303,6 +303,37 @@ def setFlag (name : List Nat) (v : Bool) (a : Attr) : Attr :=
 def setColor (fg : Bool) (v : List Nat) (a : Attr) : Attr :=
   if fg then { a with fg := v } else { a with bg := v }
 
+/-- what one table-driven SGR code does to the rendition -/
+inductive Act
+  | fg (v : List Nat)
+  | bg (v : List Nat)
+  | flag (name : List Nat) (v : Bool)
+deriving DecidableEq, Repr
+
+def Act.run : Act → Attr → Attr
+  | .fg v, a => { a with fg := v }
+  | .bg v, a => { a with bg := v }
+  | .flag name v, a => setFlag name v a
+
+/-- the chain of table tests in `select_graphic_rendition`, in source order:
+    FG_ANSI, BG_ANSI, TEXT, FG_AIXTERM, BG_AIXTERM -/
+def tableAct (attr : Nat) : Option Act :=
+  match lookup attr FG_ANSI with
+  | some v => some (.fg v)
+  | none =>
+  match lookup attr BG_ANSI with
+  | some v => some (.bg v)
+  | none =>
+  match lookup attr TEXT with
+  | some str => some (.flag (str.drop 1) (str.head? == some 43))
+  | none =>
+  match lookup attr FG_AIXTERM with
+  | some v => some (.fg v)
+  | none =>
+  match lookup attr BG_AIXTERM with
+  | some v => some (.bg v)
+  | none => none
+
 /-- the `while let Some(attr) = attrs_list.pop()` loop; `fuel` bounds the
     number of iterations by the list length. -/
 def sgrLoop (dflt : Attr) : Nat → List Nat → Attr → Attr
@@ -310,20 +341,8 @@ def sgrLoop (dflt : Attr) : Nat → List Nat → Attr → Attr
   | _, [], a => a
   | fuel + 1, attr :: rest, a =>
     if attr == 0 then sgrLoop dflt fuel rest dflt
-    else match lookup attr FG_ANSI with
-    | some v => sgrLoop dflt fuel rest { a with fg := v }
-    | none =>
-    match lookup attr BG_ANSI with
-    | some v => sgrLoop dflt fuel rest { a with bg := v }
-    | none =>
-    match lookup attr TEXT with
-    | some str => sgrLoop dflt fuel rest (setFlag (str.drop 1) (str.head? == some 43) a)
-    | none =>
-    match lookup attr FG_AIXTERM with
-    | some v => sgrLoop dflt fuel rest { a with fg := v }
-    | none =>
-    match lookup attr BG_AIXTERM with
-    | some v => sgrLoop dflt fuel rest { a with bg := v }
+    else match tableAct attr with
+    | some act => sgrLoop dflt fuel rest (act.run a)
     | none =>
     if attr == FG_256 || attr == BG_256 then
       let isFg := attr == FG_256
@@ -469,15 +488,17 @@ def shiftModes (modes : List Nat) (priv : Bool) : List Nat :=
 def colmSet (s : Screen) : Screen :=
   cursorPosition (eraseInDisplay (resize { s with savedColumns := some s.columns } none (some 132)) (some 2)) none none
 
+/-- the width restore of the DECCOLM block of `reset_mode` -/
+def colmRestore (s : Screen) : Screen :=
+  if s.columns == 132 then
+    match s.savedColumns with
+    | some sc => { resize s none (some sc) with savedColumns := none }
+    | none => s
+  else s
+
 /-- the DECCOLM block of `reset_mode` -/
 def colmReset (s : Screen) : Screen :=
-  let s1 :=
-    if s.columns == 132 then
-      match s.savedColumns with
-      | some sc => { resize s none (some sc) with savedColumns := none }
-      | none => s
-    else s
-  cursorPosition (eraseInDisplay s1 (some 2)) none none
+  cursorPosition (eraseInDisplay (colmRestore s) (some 2)) none none
 
 /-- `set_mode` -/
 def setMode (s : Screen) (modes : List Nat) (priv : Bool) : Screen :=
